@@ -75,6 +75,46 @@ func vaSprint(v *VM, va []Value) string {
 	return strings.Join(res, " ")
 }
 
+// fmtOperand returns v as the Go value the fmt verbs work on: %d, %x, %c, %f, %t,
+// %q ... format numbers, strings and bools, not the VM's Value struct. Values
+// without a Go counterpart stay as they are and print through Value.String.
+func fmtOperand(v Value) any {
+	switch v.t {
+	case TypeNil:
+		return nil
+	case TypeBool:
+		return v.Bool()
+	case untypedInt:
+		return v.Int()
+	case TypeInt32:
+		return v.Int32()
+	case TypeUint32:
+		return v.Uint32()
+	case TypeInt8:
+		return v.Int8()
+	case TypeUint8:
+		return v.Uint8()
+	case TypeFloat64:
+		return v.Float64()
+	case TypeString:
+		return v.String()
+	case sliceType(TypeUint8):
+		b := make([]byte, 0, v.Len())
+		for _, e := range v.data() {
+			b = append(b, e.Uint8())
+		}
+		return b
+	case TypeFunc, TypeObject:
+		if v.value == nil {
+			return nil
+		}
+	}
+	if v.t.base() == TypeStruct && v.value == nil {
+		return nil
+	}
+	return v
+}
+
 func loadFmt(g *lookup) {
 	g.Set("fmt.Sprint", NewFunc(1, 1, func(v *VM, args []Value, vargs ...Value) []Value {
 		return []Value{String(vaSprint(v, vargs))}
@@ -90,7 +130,7 @@ func loadFmt(g *lookup) {
 	g.Set("fmt.Sprintf", NewFunc(2, 1, func(v *VM, args []Value, vargs ...Value) []Value {
 		var va []any
 		for _, v := range vargs {
-			va = append(va, v)
+			va = append(va, fmtOperand(v))
 		}
 		return []Value{String(fmt.Sprintf(args[0].String(), va...))}
 	}))
